@@ -1,3 +1,64 @@
 import XvcRepo.Model
+/-!
+  Crash model for C07: the per-file procedures of `track`, `carry-in` and `recheck` decomposed into
+  their file-system visible micro-steps (one system call or one atomic group each, in the order the
+  code issues them — see the `strace` traces in the C07 evidence).  A kill between two system calls
+  leaves the repository in the state reached by a *prefix* of the micro-step list.
+
+  The five stores of an entity are one record here: the non-atomic saving of the five store files is
+  known finding K3b1 and is outside this model.
+-/
 namespace Repo
+
+abbrev Micro := St → St
+
+def runMicro (s : St) (l : List Micro) : St := l.foldl (fun s f => f s) s
+
+/-- first phase of `carry_in` for one file without `--force`: `rename` into the cache when the address
+    is free (`[EXISTS]` otherwise) -/
+def mMoveIn (p : Path) (a : Addr) : Micro := fun s =>
+  if (s.cache a).isSome then s else (s.moveToCache p a).1
+
+/-- `if target_path.exists() { remove_file }` -/
+def mUnlinkWs (p : Path) : Micro := fun s => if (s.readThrough p).isSome then s.setWs p none else s
+
+/-- `recheck_from_cache` (copy: create + write + chmod; link; symlink) -/
+def mMaterialise (p : Path) (a : Addr) (m : Method) : Micro := fun s => (s.recheckFromCache p a m).1
+
+/-- saving the records of one entity -/
+def mSaveRec (e : Ent) (r : Rec) : Micro := fun s => s.setRec e (some r)
+
+def mSaveNewRec (r : Rec) : Micro := fun s => (s.setRec s.next (some r)).bumpNext
+
+/-- `carry_in` of one file, no `--force` -/
+def carryMicro (p : Path) (a : Addr) (m : Method) : List Micro := [mMoveIn p a, mUnlinkWs p, mMaterialise p a m]
+
+/-- `xvc file track` of a new file: all records first, then the content (K3b2) -/
+def trackNewMicro (p : Path) (r : Rec) (a : Addr) : List Micro := mSaveNewRec r :: carryMicro p a r.method
+
+/-- `xvc file carry-in` of a changed file: the content first, then the records (K3d) -/
+def carryInMicro (p : Path) (e : Ent) (r' : Rec) (a : Addr) (m : Method) : List Micro := carryMicro p a m ++ [mSaveRec e r']
+
+/-- `xvc file recheck`: unlink, materialise, then save the method -/
+def recheckMicro (p : Path) (e : Ent) (r' : Rec) (a : Addr) : List Micro :=
+  [mUnlinkWs p, mMaterialise p a r'.method, mSaveRec e r']
+
+/-! ## atomic appearance of store files (after the K3a repair) -/
+
+/-- a directory of event files: name, hidden?, complete? -/
+structure DirEntry where
+  name : Nat
+  hidden : Bool
+  complete : Bool
+  deriving DecidableEq, Repr
+
+/-- `EventLog::to_dir` after the repair: create the hidden temp file, write it, rename it -/
+def saveFileMicro (n : Nat) : List (List DirEntry → List DirEntry) :=
+  [fun d => d ++ [⟨n, true, false⟩],
+   fun d => d.map (fun x => if x.name = n ∧ x.hidden then { x with complete := true } else x),
+   fun d => d.map (fun x => if x.name = n ∧ x.hidden then { x with hidden := false } else x)]
+
+/-- what `sorted_files` returns: hidden files are skipped -/
+def visible (d : List DirEntry) : List DirEntry := d.filter (fun x => !x.hidden)
+
 end Repo
